@@ -235,6 +235,8 @@ def gen_case(rng, direction, n, cid, opts=None):
             e = Fraction(*t["est"])
             t["spent"] = q4(int(rng.choice([0, e * 2, e * 4, e * 4 + 4, e * 4 + 1])))
         if not leaf:
+            if direction == "fwd" and rng.random() < 0.15:
+                t["minStart"] = pstart + rng.choice([3, 9]) * DAY        # min_start on a summary: children do not inherit it
             # user values on summaries must be replaced by roll-ups
             if rng.random() < 0.3 and direction == "fwd":
                 t["fstart"] = now - rng.choice([1, 3, 9]) * DAY
@@ -495,18 +497,29 @@ def execute(case):
     case["obs"]["resnames"] = ok_names
     touched = sorted({(r["r"], r["d"]) for r in R["rows"] if r["r"] in resobj})
     extra = [(k, lo) for k in resobj] + [(k, hi) for k in resobj]
+    BAD = [-777777, 1]          # an answer that raised: compares unequal to every model value
+
+    def ask(fn):
+        try:
+            return cal.to_q(fn())
+        except Exception:
+            return BAD
+
     for (k, d) in touched + extra:
         if d < 0:
             continue
-        case["obs"]["reserved"].append({"r": k, "d": d, "u": cal.to_q(rep.reserved(resobj[k], inst(d * DAY)))})
+        case["obs"]["reserved"].append({"r": k, "d": d, "u": ask(lambda: rep.reserved(resobj[k], inst(d * DAY)))})
     byid = {I["tasks"][i - 1]["id"]: i for i in numbers}
     for i in numbers[:4]:
         tid = I["tasks"][i - 1]["id"]
-        rows = rep.rows(lambda r, tid=tid: r.task.id == tid)
-        case["obs"]["filt"].append({"t": i, "n": len(rows), "u": cal.to_q(sum((r.units for r in rows), 0))})
+        try:
+            rows = rep.rows(lambda r, tid=tid: r.task.id == tid)
+            case["obs"]["filt"].append({"t": i, "n": len(rows), "u": cal.to_q(sum((r.units for r in rows), 0))})
+        except Exception:
+            case["obs"]["filt"].append({"t": i, "n": -1, "u": BAD})
     for k in range(1, len(I["resources"]) + 1):
         if k in resobj:
-            case["obs"]["caps"].append([cal.to_q(resobj[k].get_available_units(inst(d * DAY))) for d in
+            case["obs"]["caps"].append([ask(lambda: resobj[k].get_available_units(inst(d * DAY))) for d in
                                         range(lo, hi + 1)])
         else:
             case["obs"]["caps"].append([])
